@@ -294,14 +294,10 @@ def rule_F4(ctx, R):
             e, p = seen[(site[0], site[1], "ev")]
             res.bad(Violation("F4", site[0], "poison-call", "PoisonFlag::poison is executed on a normal (non-unwinding) path of %s "
                               "(path: %s)" % (site[0], p.trace()[:300]), e.get("file"), e.get("line")))
-    # the flag primitives themselves
-    import model
+    # the flag's own methods: read yields exactly the loaded value, set / clear write exactly the literal true / false
     I = ctx.M["make"]()
-    for k in list(I.primitives):
-        if k in ctx.A.flag_fn.values():
-            del I.primitives[k]
-    want = {"read": ("load", None), "clear": ("store", ("const", False)), "set": ("store", ("const", True))}
-    for name, (op, val) in want.items():
+    want = {"read": "FLAG_READ", "clear": "FLAG_CLEAR", "set": "FLAG_SET"}
+    for name, evk in want.items():
         try:
             fn = F.fn(ctx.A.flag_fn[name])
         except KeyError as e:
@@ -316,13 +312,17 @@ def rule_F4(ctx, R):
         for p in paths:
             if p.kind != "ret":
                 continue
-            cs = [e for e in _calls(p) if "atomic" in e["def"]]
-            if len(cs) != 1 or not cs[0]["def"].endswith("::" + op):
-                bad = "performs %s (expected one atomic %s)" % ([c["def"] for c in cs], op)
-            elif op == "store" and cs[0]["argv"][1] != val:
-                bad = "stores %r (expected %r)" % (cs[0]["argv"][1], val)
-            elif op == "load" and not (p.value and p.value[0] == "op" and p.value[1] == cs[0]["result"]):
-                bad = "does not return the loaded flag"
+            evs = p.ev("FLAG_READ", "FLAG_SET", "FLAG_CLEAR")
+            mine = [e for e in evs if e["k"] == evk]
+            other = [e for e in evs if e["k"] != evk and not (e["k"] == "FLAG_READ" and e.get("via"))]
+            if len(mine) != 1 or other:
+                bad = "performs %s (expected exactly one %s of the flag)" % ([e["k"] for e in evs], evk.split("_")[1].lower())
+            elif name == "read":
+                v = p.value
+                rid = mine[0]["result"]
+                okv = (v and v[0] == "op" and v[1] == rid) or (v and v[0] == "const" and isinstance(v[1], bool) and p.facts.get(rid) is v[1])
+                if not okv:
+                    bad = "does not return the loaded flag"
         if bad:
             res.bad(Violation("F4", fn["path"], name, "PoisonFlag::%s %s" % (name, bad), *_floc(fn)))
         else:
@@ -545,7 +545,12 @@ def rule_V2(ctx, R):
                     if not mine:
                         bad = "releases %s, which it did not acquire itself" % ctx.arg_name(f, e["recv"])
                 if e["k"] == "KILL":
-                    bad = "kills lock %s" % ctx.arg_name(f, e["recv"])
+                    # the lock's own raw try-operation panicking is what a kill is for (Q1); anything else is a disturbance
+                    inh, body = handler_context(p, e["i"])
+                    own_fault = inh and any(b["k"] == "RAW" and b.get("owner") == e["recv"] for b in body) and \
+                        any(b["k"] == "UNWIND_AT" and str(b.get("what", "")).startswith("raw ") for b in body)
+                    if not own_fault:
+                        bad = "kills lock %s" % ctx.arg_name(f, e["recv"])
             if p.kind in ("ret", "unwind"):
                 held = [r for r, m in p.locks.items() if m in ("W", "R") and any(
                     t["k"] == "TRY" and t.get("recv") == r for t in p.events)]
@@ -579,8 +584,11 @@ def rule_V3(ctx, R):
             if p.kind == "ret":
                 if [e["k"] for e in evs] != [kind] or evs[0]["recv"] != "a1.*.%d" % pf:
                     bad = "events %s (expected exactly one %s on self.poisoned)" % ([e["k"] for e in evs], kind)
-                if name == "is_poisoned" and not (p.value and p.value[0] == "op" and p.value[1] == evs[0].get("result")):
-                    bad = "does not return the flag"
+                if name == "is_poisoned" and not bad:
+                    v, rid = p.value, evs[0].get("result")
+                    okv = (v and v[0] == "op" and v[1] == rid) or (v and v[0] == "const" and isinstance(v[1], bool) and p.facts.get(rid) is v[1])
+                    if not okv:
+                        bad = "does not return the flag"
         if bad:
             res.bad(Violation("V3", f["path"], name, bad, *_floc(f)))
         else:
